@@ -4,6 +4,7 @@ import SamplyModel.Lemmas.ConvJit
 import SamplyModel.Lemmas.ConvElide
 import SamplyModel.Lemmas.ConvFinal
 import SamplyModel.Lemmas.ConvMarkers
+import SamplyModel.Lemmas.ConvMarkHist
 /-!
 # C14 — deep stacks are shortened only in the middle, with an exact elision count
 
@@ -527,6 +528,49 @@ theorem C14_history (cfg : Config) (rs : List Rec) (hr : cfg.reuse = false)
   refine C14_meets_spec_exact e.frames ?_ ?_
   · intro f hf; rw [h1] at hf; exact (a1 f hf).1
   · intro f hf; rw [h1] at hf; exact (a1 f hf).2
+
+/-- **Marker stacks over histories** (the marker analogue of `C02_history` / `C14_history`): for every configuration
+with default options and every record history inside the hypotheses of `C02_history`, the stacks attached to the
+`Other event` markers of `views (run cfg rs)` are, as a multiset keyed by (pid, tid, time) of the thread entry and
+the marker, exactly `depthLimit 200 e.frames e.nrec` of the expected markers `e` (`ConvSpec.expectedMarkers`: one per
+other-event sample, attributed declaratively like a sample of that process at that time — announcement lists
+inherited at FORK, dropped at EXIT / EXEC, look-ahead by timestamp, regular → perf map, `expandJs`); and for every
+expected marker whose attributed stack contains no JS label frame the hint is exact and that output satisfies the
+judged statement `elisionOk e.frames`. (With JS label frames the known finding C14-js-label-depth applies to marker
+stacks as to sample stacks.) This is what `judgeC14` evaluates on samply's marker stacks. -/
+theorem C14_marker_history (cfg : Config) (rs : List Rec) (hr : cfg.reuse = false)
+    (hg : Life.grammarOk cfg.ref rs = true) (hcs : hasCsRec rs = false) (hsp : noSpecial rs = true)
+    (hord : queuedOrdered rs = true) (hpm : ∀ pid, (loadPerfMap cfg pid).isSome = true) :
+    List.Perm
+      ((views (run cfg rs)).flatMap (fun v => v.markers.map
+        (fun o => (v.pidBase, v.tidBase, o.t, o.frames))))
+      ((expectedMarkers cfg rs).map
+        (fun e => (e.pid, e.tid, e.t - cfg.ref, depthLimit 200 e.frames e.nrec))) ∧
+    ∀ e ∈ expectedMarkers cfg rs, e.frames.any isLabel = false →
+      e.frames.length = e.nrec ∧ elisionOk e.frames (depthLimit 200 e.frames e.nrec) = true := by
+  refine ⟨history_markers cfg rs hr hg hcs hsp hord hpm, ?_⟩
+  intro e he hnl
+  obtain ⟨infos, h1, h2, h3⟩ := expectedMarkers_go_shape cfg rs [] e he
+  obtain ⟨a1, a2⟩ := expandJsFrom_frames [] infos h3
+  have hnl' : (expandJsFrom [] infos).any isLabel = false := by rw [h1] at hnl; exact hnl
+  have hlen : e.frames.length = e.nrec := by
+    rw [h2, h1]; exact a2 hnl'
+  refine ⟨hlen, ?_⟩
+  rw [← hlen]
+  refine C14_meets_spec_exact e.frames ?_ ?_
+  · intro f hf; rw [h1] at hf; exact (a1 f hf).1
+  · intro f hf; rw [h1] at hf; exact (a1 f hf).2
+
+/-- non-vacuity of `C14_marker_history`: a history inside its hypotheses (a mapping, a fork, other-event samples of
+parent and child — one on a thread first seen through the other event — mixed with a main-event sample) whose expected
+marker stacks carry no JS label frame -/
+example :
+    let rs : List Rec := [.comm 100 100 "app" false 1000, .mmap2 100 100 0x400000 0x2000 0 true "libfoo.so" 1100,
+      .fork 200 200 100 100 1200, .otherEvent 200 201 1300 false 0x400100 [CTX_USER, 0x400100, 0x401000],
+      .sample 100 100 1400 false 1 0x400200 [], .otherEvent 100 100 1400 false 0x400200 []]
+    Life.grammarOk 1000 rs = true ∧ hasCsRec rs = false ∧ noSpecial rs = true ∧ queuedOrdered rs = true ∧
+    (expectedMarkers { ref := 1000 } rs).map (fun e => (e.pid, e.tid, e.t, e.frames.any isLabel, e.frames.length, e.nrec)) =
+      [(200, 201, 1300, false, 2, 2), (100, 100, 1400, false, 1, 1)] := by decide
 
 /-- non-vacuity of `C14_history`: a history inside its hypotheses (a mapping, a fork, samples of parent and child)
 whose expected stacks carry no JS label frame -/
